@@ -588,6 +588,8 @@ theorem repay_inv {E : Env} {g : Int} {now : Int} {s s' : St} {owner : Acct} {ty
   · cases h
   split at h
   · cases h
+  split at h
+  · cases h
   rename_i id c0 hf
   split at h
   · cases h
